@@ -541,6 +541,16 @@ Qed.
 (* nothing escapes; crashes become a 500                               *)
 (* ------------------------------------------------------------------ *)
 
+(* the html_escape chain read from common_helpers.py, one character at a time
+   (re-checked against Gen.html_escape_chain on every build) *)
+Lemma wsgi_ombott_chain_one c : apply_chain Gen.html_escape_chain [c] = esc1_ombott c.
+Proof. unfold esc1_ombott, Gen.html_escape_chain. chain_one c. Qed.
+Lemma wsgi_html_escape_pointwise s : html_escape_ombott s = flat_map esc1_ombott s.
+Proof.
+  unfold html_escape_ombott. rewrite apply_chain_pointwise.
+  apply flat_map_ext. exact wsgi_ombott_chain_one.
+Qed.
+
 Lemma esc1_ombott_scalar c : scalarb c = true -> forallb scalarb (esc1_ombott c) = true.
 Proof.
   intros H. unfold esc1_ombott.
@@ -554,7 +564,7 @@ Lemma critical_page_encodable path :
 Proof.
   intros H. unfold utf8_encode.
   assert (E : forallb scalarb (critical_page path) = true).
-  { unfold critical_page. rewrite !forallb_app. rewrite html_escape_ombott_pointwise, forallb_flat_map.
+  { unfold critical_page. rewrite !forallb_app. rewrite wsgi_html_escape_pointwise, forallb_flat_map.
     replace (forallb (fun a => forallb scalarb (esc1_ombott a)) path) with true; [reflexivity|].
     symmetry. apply forallb_forall. intros c Hc. apply esc1_ombott_scalar. apply scalarb_spec.
     rewrite Forall_forall in H. now apply H. }
@@ -781,7 +791,7 @@ Lemma hooks_lifecycle p :
     /\ (all_ok (p_before p) = true ->
          exists evR, evM = EvRouted :: evR /\ forallb mid_event evR = true /\ count is_handler evR <= 1).
 Proof.
-  unfold handle.
+  unfold handle, handle_from.
   destruct (run_hooks EvHookB (indexed (p_before p)) st_init) as [[evB st1] xB] eqn:HB.
   destruct (match xB with Some x => ([], st1, inr x) | None => route_and_call (p_routing p) st1 end)
     as [[evM st2] resM] eqn:HM.
